@@ -1,5 +1,5 @@
 \* exhaustive (thorough): all histories of <= 5 calls; 2 snapshots, 2 load handles; growth to 12 nodes
-CONSTANTS Slots = {1, 2}  Handles = {1, 2}  MaxLevel = 6  MaxNodes = 12  MutNodes = {3, 7}
+CONSTANTS Slots = {1, 2}  Handles = {1, 2}  MaxLevel = 6  MaxNodes = 12  MutNodes = {7}
 INIT Init
 NEXT Next
 CONSTRAINT Bound
